@@ -36,7 +36,7 @@ MULTI_REG = '''//@   requires testsRegistry != nil && testsRegistry.running != n
 MULTI_ASSIGNS = '''//@   assigns nErr[t], lastErr[t], nLog[t], lastLog[t], nCleanup[t], lastCleanup[t]
 //@   assigns testEvents.items[erred], testEvents.items[added], testEvents.items[updated], testEvents.items[passed]
 //@   assigns testsRegistry.running[sp], testsRegistry.cleanup[sp], testsRegistry.running[sp][tname(t)], testsRegistry.cleanup[sp][tname(t)]
-//@   assigns fsx[sp], fsc[sp], fsdir, fswrites, alloc, nDelPrinted, nInsPrinted
+//@   assigns fsx[sp], fsc[sp], fsdir, fswrites, alloc, nDelPrinted, nInsPrinted, delText, insText
 '''
 def outcome(pre):
     return f'''//@   ensures [one_outcome] {pre} ==>
@@ -136,7 +136,7 @@ STANDALONE_REG = '''//@   requires standaloneTestsRegistry != nil && standaloneT
 STANDALONE_ASSIGNS = '''//@   assigns nErr[t], lastErr[t], nLog[t], lastLog[t], nCleanup[t], lastCleanup[t]
 //@   assigns testEvents.items[erred], testEvents.items[added], testEvents.items[updated], testEvents.items[passed]
 //@   assigns standaloneTestsRegistry.running[gp], standaloneTestsRegistry.cleanup[gp]
-//@   assigns fsx[sp], fsc[sp], fsdir, fswrites, alloc, nDelPrinted, nInsPrinted
+//@   assigns fsx[sp], fsc[sp], fsdir, fswrites, alloc, nDelPrinted, nInsPrinted, delText, insText
 '''
 def standalone_tail(ok):
     return f'''//@   ensures [ordinal] ordinalTaken
